@@ -650,12 +650,13 @@ func (p *Pager) RunRollbackTx(prev *Image, tx Tx, jm JournalMode, outcome Rollba
 		segs = [][]uint32{recs[:tx.JournalSplit], recs[tx.JournalSplit:]}
 	}
 	off := int64(0)
-	for _, seg := range segs {
+	for si, seg := range segs {
+		nonce := p.Nonce + uint32(si)*0x9e3779b9 // SQLite draws a fresh checksum nonce for every journal header
 		hdrOff := off
 		hdr := make([]byte, sectorSize)
 		copy(hdr, "\xd9\xd5\x05\xf9\x20\xa1\x63\xd7")
 		binary.BigEndian.PutUint32(hdr[8:], 0) // nRec, rewritten at sync
-		binary.BigEndian.PutUint32(hdr[12:], p.Nonce)
+		binary.BigEndian.PutUint32(hdr[12:], nonce)
 		binary.BigEndian.PutUint32(hdr[16:], uint32(len(prev.Pages)))
 		binary.BigEndian.PutUint32(hdr[20:], uint32(sectorSize))
 		binary.BigEndian.PutUint32(hdr[24:], uint32(ps))
@@ -676,7 +677,7 @@ func (p *Pager) RunRollbackTx(prev *Image, tx Tx, jm JournalMode, outcome Rollba
 				unlockAll()
 				return err
 			}
-			binary.BigEndian.PutUint32(b4[:], journalChecksum(pre, p.Nonce))
+			binary.BigEndian.PutUint32(b4[:], journalChecksum(pre, nonce))
 			if err := db.WriteJournalAt(ctx, jf, b4[:], off+4+int64(ps), o); err != nil {
 				unlockAll()
 				return err
@@ -1021,6 +1022,27 @@ func (p *Pager) WriteWALFrames(frames []WALFrameSpec, commitSize uint32, split b
 type WALMark struct {
 	frames int
 	c1, c2 uint32
+}
+
+// WriteTornFrame writes only the 24-byte header of one more frame (the writer is interrupted between the two writes
+// SQLite issues per frame): the log then ends inside a frame. Nothing of the pager's state advances.
+func (p *Pager) WriteTornFrame(f WALFrameSpec) error {
+	db, o := p.DB, p.Owner
+	wf, err := db.OpenWAL(ctx)
+	if err != nil {
+		return err
+	}
+	defer wf.Close()
+	off := int64(32) + int64(p.walFrames)*int64(24+p.PageSize)
+	h := make([]byte, 24)
+	binary.BigEndian.PutUint32(h[0:], f.Pgno)
+	binary.BigEndian.PutUint32(h[8:], p.walSalt1)
+	binary.BigEndian.PutUint32(h[12:], p.walSalt2)
+	c1, c2 := walChecksum(p.bo(), p.walCk1, p.walCk2, h[:8])
+	c1, c2 = walChecksum(p.bo(), c1, c2, f.Data)
+	binary.BigEndian.PutUint32(h[16:], c1)
+	binary.BigEndian.PutUint32(h[20:], c2)
+	return db.WriteWALAt(ctx, wf, h, off, o)
 }
 
 // DropPending forgets the frames written since the last commit (the transaction rolls back).
